@@ -12,7 +12,8 @@ PROP = "C04"
 LEAN_MODULES = ["AcryoVerif.Props.C04"]
 LEAN_SUPPORT = ["AcryoVerif.Lemmas.PyLemmas", "AcryoVerif.Lemmas.Corr", "AcryoVerif.Props.C05",
                 "AcryoVerif.Model.Landscape"]
-KERNELS = list(_C05.KERNELS) + ["pccScoreAtArgmax"]
+KERNELS = list(_C05.KERNELS) + ["pccScoreAtArgmax"] + \
+    ["modelMethodsDoNotStoreBase", "modelMethodsDoNotStoreConcrete", "tiltModelsDoNotStore"]
 TRUSTED = [
     "Lean 4.33 kernel; axioms propext / Classical.choice / Quot.sound only (Mathlib's "
     "Finset.sum_mul_sq_le_sq_mul_sq is the Cauchy-Schwarz inequality used)",
@@ -154,10 +155,26 @@ def run_case(inp):
         with dask.config.set(scheduler="synchronous"):
             model = M(tmpl, mask, **kw)
             via = inp.get("via", "align")
+            # earlier uses of the same model object (other sub-volumes, other orientations) must not matter
+            hr = np.random.default_rng(inp["seed"] + 17)
+            for j in range(int(inp.get("history", 0))):
+                hq = Rotation.random(random_state=int(hr.integers(0, 10 ** 6))).as_quat().astype(np.float32)
+                hd = np.array([hr.uniform(-x, x) for x in m])
+                model.align(_fshift(tmpl, hd), m, quaternion=hq)
+                if hasattr(model, "score"):
+                    model.score(_fshift(tmpl, hd), hq, np.zeros(3, dtype=np.float32))
             if via == "fit":
                 _, res = model.fit(sub, m)
             else:
                 res = model.align(sub, m, quaternion=quat)
+            if inp.get("history"):
+                fresh = M(tmpl, mask, **kw).align(sub, m, quaternion=quat) if via != "fit" else M(tmpl, mask, **kw).fit(sub, m)[1]
+                if np.abs(np.asarray(fresh.shift) - np.asarray(res.shift)).max() > 1e-6 or abs(float(fresh.score) - float(res.score)) > 1e-6:
+                    viols_h = {"clause": "history-independent", "input": dict(inp),
+                               "desc": f"{inp['model']}: after {inp['history']} earlier calls on other orientations the same "
+                                       f"model returns shift {np.round(res.shift, 3).tolist()} score {float(res.score):.4f}, a fresh "
+                                       f"model {np.round(fresh.shift, 3).tolist()} score {float(fresh.score):.4f}"}
+                    return [viols_h]
     except Exception as e:  # noqa: BLE001
         V("no-error", f"{inp['model']} raised {type(e).__name__}: {str(e)[:100]}")
         return viols
@@ -187,7 +204,7 @@ def oracle(rng, thorough, deep=False, hints=None):
     n = 40 if big else 9
     for mdl in ["ZNCC", "NCC", "PCC", "FSC"]:
         for it in range(n if mdl != "FSC" else max(4, n // 3)):
-            m = float(rng.choice([0.5, 1.0, 1.5, 2.0, 2.3] if mdl != "FSC" else [0.5, 1.0, 1.5]))
+            m = float(rng.choice([0.5, 0.75, 1.0, 1.5, 1.75, 2.0, 2.3, 2.75] if mdl != "FSC" else [0.5, 1.0, 1.5, 1.75]))
             m3 = [m, m, m] if it % 3 else [m, float(rng.choice([0.5, 1.0])), m]
             need = 2 * (int(np.ceil(max(m3))) + 3) + 3
             shape = [int(x) for x in rng.integers(need, need + 5, size=3)]
@@ -208,7 +225,20 @@ def oracle(rng, thorough, deep=False, hints=None):
                 from scipy.spatial.transform import Rotation
                 c["quat"] = Rotation.random(random_state=int(rng.integers(0, 1000))).as_quat().tolist()
                 c["tilt"] = [-60, 60]
+                c["history"] = 2
             cases.append(c)
+        # always: displacements at the very end of a fractional range, and a used model with a wedge
+        from scipy.spatial.transform import Rotation
+        mm = float([0.75, 1.75, 2.75][len(cases) % 3]) if mdl != "FSC" else 1.75
+        need = 2 * (int(np.ceil(mm)) + 3) + 3
+        cases.append(dict(model=mdl, shape=[need + 1, need + 2, need], max_shifts=[mm, mm, mm],
+                          d=[mm, -mm, mm if mdl != "FSC" else 1.0], seed=int(rng.integers(0, 10 ** 6)),
+                          sigma=1.0 if mdl != "FSC" else 0.7, cutoff=None, tilt=None, mask=None, quat=None, via="align"))
+        if mdl in ("ZNCC", "NCC"):
+            cases.append(dict(model=mdl, shape=[15, 16, 15], max_shifts=[2.0, 2.0, 2.0], d=[1.0, -2.0, 0.5],
+                              seed=int(rng.integers(0, 10 ** 6)), sigma=1.0, cutoff=None, tilt=[-60, 60], mask=None,
+                              quat=Rotation.random(random_state=int(rng.integers(0, 1000))).as_quat().tolist(),
+                              via="align", history=3))
     viols, stats = [], {"by_model": {}, "by_dkind": {"integer": 0, "fractional": 0}, "samples":
                         [{"oracle_case": c} for c in cases[:2]]}
     for c in cases:
